@@ -23,7 +23,7 @@ TECHNIQUE = 'symbolic execution of the real quantizer modules on z3-real tensors
 FUNCTIONS_ENCODED = ['MinMaxWeight.forward/scale/_compute_min_max_sym', 'MinMaxSymSTE.forward', '_min_max_quantize', 'PACTAct.forward/scale',
                      'PACTActSTE.forward', 'QuantizerBias.forward/scale', 'QuantizeBiasSTE.forward', 'RoundSTE.forward']
 BOUNDS = {'quick': 'weights C x n in {1x1, 1x3, 2x2}, bits {0,2,3,8}; PACT bits {2,3,8}, clip symbolic in [0.05,1000] (grid {0.05,0.5,6,1000} when NRA stalls), x arbitrary real; bias: 2 channels, scales >= 0 incl. 0 and the isclose band; FP32: PACT bits {2,8}, all float32 x with |x| <= 2^13, clip in [0.05,1000]',
-          'thorough': 'weights up to 2x3, bits {0,2,...,8}; PACT bits 2..8; FP32 PACT bits {2,3,4,8} incl. monotonicity and 2-ulp truncation'}
+          'thorough': 'weights up to 2x3, bits {0,2,...,8}; PACT bits 2..8; FP32 PACT bits {2,3,4,8}; range and negative-to-zero for every float32 clip in [0.05,1000]; monotonicity for the clipping thresholds {0.05, 0.3, 1, 3.3, 6, 1000} (a symbolic threshold is not decided by z3 within 240 s)'}
 OUTSIDE = ['float32 round-off inside MinMaxWeight / QuantizerBias (real semantics there)', 'denormal weights, clip values comparable to the 1e-3 stabiliser (< 0.05)',
            'asymmetric weight quantisation, PACTActSigned, FQ weights']
 ASSUMPTIONS = ['symmetric weights', 'clip in [0.05, 1000]', 'the PACT "fake-quantised = integer x reported scale" clause holds up to the documented 1e-3 stabiliser (PACTAct.scale omits it by design)',
@@ -41,6 +41,8 @@ def instances(tier, seed):
             out.append({'id': f'weight:{sh[0]}x{sh[1]}:b{b}', 'what': 'weight', 'shape': list(sh), 'bits': b})
     for b in ([2, 3, 8] if tier == 'quick' else [2, 3, 4, 5, 6, 7, 8]):
         out.append({'id': f'pact:b{b}', 'what': 'pact', 'bits': b})
+    for b, b0 in ([(2, 8), (8, 4)] if tier == 'quick' else [(2, 8), (3, 8), (4, 2), (8, 4)]):
+        out.append({'id': f'pact:b{b}:set_from_b{b0}', 'what': 'pact', 'bits': b, 'b0': b0})
     for b in ([8, 32] if tier == 'quick' else [8, 16, 32]):
         out.append({'id': f'bias:b{b}', 'what': 'bias', 'bits': b})
     for b in ([2, 8] if tier == 'quick' else [2, 3, 4, 8]):
@@ -66,9 +68,11 @@ def concrete_weight(shape, bits, w):
     return W, qi, fq, q.scale
 
 
-def concrete_pact(bits, clip, xs):
+def concrete_pact(bits, clip, xs, b0=None):
     from plinio.methods.mps.quant.quantizers import PACTAct
-    q = PACTAct(bits, init_clip_val=_f(clip))
+    q = PACTAct(b0 or bits, init_clip_val=_f(clip))
+    if b0:
+        q.precision = bits
     X = torch.tensor([_f(v) for v in xs], dtype=torch.float32)
     q.dequantize = False
     qi = q(X)
@@ -121,7 +125,7 @@ def replay(rec):
         if obs == 'error':
             return bool(((fq - W).abs() >= scale.view(-1, 1) * (1 + tol)).any()), info
     if rec['qkind'] == 'pact':
-        X, qi, fq, scale = concrete_pact(rec['bits'], rec['clip'], rec['x'])
+        X, qi, fq, scale = concrete_pact(rec['bits'], rec['clip'], rec['x'], rec.get('b0'))
         b, clip = rec['bits'], _f(rec['clip'])
         flat = lambda t: [float(v) for v in t.reshape(-1)]
         info = f'x={flat(X)} clip={clip} int={flat(qi)} fq={flat(fq)} scale={float(scale)}'
@@ -311,11 +315,14 @@ def _and(xs):
 def _run_pact(res, p, selftest):
     from plinio.methods.mps.quant.quantizers import PACTAct
     b = p['bits']
+    b0 = p.get('b0')      # built with another precision, then moved to b through the public `precision` setter
 
     def harness(clip_fixed=None):
         def fn(ex):
             with SymMode():
-                q = PACTAct(b, init_clip_val=6.)
+                q = PACTAct(b0 or b, init_clip_val=6.)
+                if b0:
+                    q.precision = b
                 if clip_fixed is None:
                     clip = z3.Real('clip')
                     ex.assume(clip >= Fraction(1, 20), clip <= 1000)
@@ -361,7 +368,7 @@ def _run_pact(res, p, selftest):
                 res.oblige(r == 'unsat')
                 if r == 'sat':
                     m2 = _grid_model(ex, [v for v in x] + ([clip] if clipv is None else []), [bad] + nog, den=1024, bound=1000) or m
-                    rec = {'qkind': 'pact', 'bits': b, 'clip': st.model_value(m2, clip), 'x': [st.model_value(m2, v) for v in x], 'observable': name,
+                    rec = {'qkind': 'pact', 'bits': b, 'b0': b0, 'clip': st.model_value(m2, clip), 'x': [st.model_value(m2, v) for v in x], 'observable': name,
                            'key': f'PACTAct|{name}|b={b}'}
                     _viol(res, rec, f'PACTAct bits={b}: {name}', selftest)
             if label != 'sym' or not unknown:
@@ -371,7 +378,7 @@ def _run_pact(res, p, selftest):
                 if r == 'sat':
                     m2 = _grid_model(ex, list(x) + ([clip] if clipv is None else []), [st.e_gt(x[0], 0), st.e_lt(x[0], clip)], den=64, bound=1000) or m
                     xs, cv = [st.model_value(m2, v) for v in x], st.model_value(m2, clip)
-                    X, qic, fqc, sc = concrete_pact(b, cv, xs)
+                    X, qic, fqc, sc = concrete_pact(b, cv, xs, b0)
                     got = [float(st.model_value(m2, v)) for v in qi]
                     res.sample({'quantizer': 'PACTAct', 'bits': b, 'clip': cv, 'x': xs, 'int': got})
                     if got == [float(v) for v in qic]:
@@ -453,6 +460,9 @@ def _run_bias(res, p, selftest):
 
 
 # ---------------------------------------------------------------------------------------------------------------------
+MONO_CLIPS = (0.05, 0.3, 1.0, 3.3, 6.0, 1000.0)
+
+
 def _run_pact_fp32(res, p, selftest):
     """the real PACTActSTE.forward on bit-precise float32 terms"""
     from plinio.methods.mps.quant.quantizers.pact_act import PACTActSTE
@@ -479,7 +489,6 @@ def _run_pact_fp32(res, p, selftest):
         obs = [('range', z3.Or(z3.fpIsNaN(q0), z3.fpIsInf(q0), z3.fpLT(q0, fpv(0.0)), z3.fpGT(q0, fpv(float(top))),
                                z3.Not(z3.fpEQ(q0, z3.fpRoundToIntegral(z3.RTZ(), q0)))))]
         if p.get('deep'):
-            obs.append(('mono', z3.And(z3.fpLEQ(x[0], x[1]), z3.fpGT(qi[0], qi[1]))))
             obs.append(('neg_to_zero', z3.And(z3.fpLEQ(x[0], fpv(0.0)), z3.Not(z3.fpEQ(q0, fpv(0.0))))))
         for name, bad in obs:
             t0 = time.time()
@@ -505,3 +514,29 @@ def _run_pact_fp32(res, p, selftest):
             else:
                 res.errors.append(f'FP32 engine disagrees with torch: engine {got} torch {[float(v) for v in qic]} at x={[float(v) for v in xs]} clip={float(c_)}')
     res.absorb(ex)
+    if not p.get('deep'):
+        return
+    # monotonicity couples two runs through a symbolic division and a symbolic product: z3 does not decide it with a symbolic threshold
+    # (unknown after 240 s), so it is decided per concrete clipping threshold (stated bound)
+    for c_ in MONO_CLIPS:
+        def fn2(ex):
+            with SymMode():
+                x = SymTensor.fresh_fp32('x', (2,))
+                for v in x.elems():
+                    ex.assume(z3.Not(z3.fpIsNaN(v)), z3.Not(z3.fpIsInf(v)), z3.fpLEQ(z3.fpAbs(v), fpv(8192.0)))
+                qi = PACTActSTE.apply(x, b, torch.tensor([c_], dtype=torch.float32), False)
+            return x.elems(), list(st.to_arr(qi))
+        ex2 = Explorer(timeout_ms=240000)
+        for pc, (x, qi) in ex2.explore(fn2):
+            bad = z3.And(z3.fpLEQ(x[0], x[1]), z3.fpGT(qi[0], qi[1])) if not selftest else z3.And(z3.fpLEQ(x[0], x[1]), z3.fpGEQ(qi[0], qi[1]), z3.fpGT(qi[0], fpv(0.0)))
+            t0 = time.time()
+            r, m = ex2.check(bad)
+            if r == 'unknown':
+                res.inconclusive.append(f'pact_fp32 b={b} mono clip={c_}: unknown after {time.time() - t0:.0f}s')
+                continue
+            res.oblige(r == 'unsat')
+            if r == 'sat':
+                xs = [st.model_value(m, v) for v in x]
+                rec = {'qkind': 'pact', 'bits': b, 'clip': Fraction(float(np.float32(c_))), 'x': xs, 'observable': 'mono', 'key': f'PACTAct|fp32:mono|b={b}'}
+                _viol(res, rec, f'PACTAct float32 bits={b} clip={c_}: mono at x={[float(v) for v in xs]}', selftest)
+        res.absorb(ex2)
